@@ -566,6 +566,13 @@ def run(ctx: Ctx):
         rule_k(ctx, env)
         rule_m(ctx, env)
         rule_n(ctx, env)
+        if cname == "MTVRPEnv":
+            # C01.u: the only env with a vehicle speed: clocks, windows and service times are times, legs and limits are lengths
+            from .. import units
+            for nm, floor in (("get_action_mask", 12), ("_step", 12), ("_reset", 8)):
+                s_ = env.slot(nm)
+                ctx.fn(s_.fi)
+                units.obligations(ctx, "C01.u", f"{cname}.{nm}", s_.it, s_.fr, s_.where, floor)
 
 
 def run_thorough(ctx: Ctx):
